@@ -316,6 +316,56 @@ func (t *tree) probes(r *hlib.Rand, n int) [][]any {
 	return ps
 }
 
+var maxDepthSeen int
+
+// indices around the powers of two where an index type could wrap (int32, uint32, float64 mantissa, int64):
+// jq gives null (or an error for what is not an int) for all of them on every array of a decode tree
+var hugeIdx = func() []any {
+	var xs []any
+	for _, s := range []string{
+		"2147483647", "2147483648", "-2147483648", "-2147483649", "4294967295", "4294967296", "4294967297", "-4294967296",
+		"9007199254740991", "9007199254740992", "9007199254740993", "-9007199254740993",
+		"9223372036854775807", "-9223372036854775808", "18446744073709551616", "18446744073709551617", "-18446744073709551616",
+	} {
+		bi, _ := new(big.Int).SetString(s, 10)
+		if bi.IsInt64() {
+			xs = append(xs, int(bi.Int64()))
+		} else {
+			xs = append(xs, bi)
+		}
+	}
+	return xs
+}()
+
+// hugeProbes: for up to n arrays of the tree, the array's path + an index near 2^31 / 2^32 / 2^53 / 2^63 / 2^64,
+// also 2^32+k and 2^64+k for an existing position k (what a truncating conversion would map onto a real element)
+func (t *tree) hugeProbes(r *hlib.Rand, n int) [][]any {
+	var arrs []*node
+	for _, nd := range t.nodes {
+		if c, isC := nd.dv.V.(*decode.Compound); isC && c.IsArray && len(nd.kids) > 0 {
+			arrs = append(arrs, nd)
+		}
+	}
+	var ps [][]any
+	for i := 0; i < n && len(arrs) > 0; i++ {
+		nd := arrs[r.Intn(len(arrs))]
+		k := r.Intn(len(nd.kids))
+		var ix any
+		switch r.Intn(4) {
+		case 0:
+			ix = 1<<32 + k
+		case 1:
+			ix = new(big.Int).Add(new(big.Int).Lsh(big.NewInt(1), 64), big.NewInt(int64(k)))
+		case 2:
+			ix = -(1 << 32) + k - len(nd.kids)
+		default:
+			ix = hugeIdx[r.Intn(len(hugeIdx))]
+		}
+		ps = append(ps, append(ownPath(nd), ix))
+	}
+	return ps
+}
+
 type treeCase struct {
 	format string
 	input  []byte
@@ -351,6 +401,7 @@ func runTree(o *hlib.Out, r *hlib.Rand, tc treeCase, maxNodes int, note string) 
 	ps := tc.probes
 	if ps == nil {
 		ps = t.probes(r, 12)
+		ps = append(ps, t.hugeProbes(r, 4)...)
 	}
 	nodes := make([]any, len(t.nodes))
 	for i, n := range t.nodes {
@@ -465,6 +516,22 @@ func runTree(o *hlib.Out, r *hlib.Rand, tc treeCase, maxNodes int, note string) 
 		if d > depth {
 			depth = d
 		}
+	}
+	if depth > maxDepthSeen {
+		maxDepthSeen = depth
+	}
+	if depth >= 33 {
+		o.Stat("trees_with_depth_ge_33", 1)
+	}
+	if depth >= 65 {
+		o.Stat("trees_with_depth_ge_65", 1)
+	}
+	maxKids := 0
+	for _, n := range t.nodes {
+		maxKids = max(maxKids, len(n.kids))
+	}
+	if maxKids >= 31 {
+		o.Stat("trees_with_a_compound_of_31_or_more_children", 1)
 	}
 	o.Stat("nested_buffer_roots", nRoots)
 	o.Stat("nested_formats", nFmt)
